@@ -405,41 +405,60 @@ def runTSize (t : Ty) : String :=
     kv "max" (toString (Spec.maxLen t)),
     kv "depth" (toString (Impl.treeDepth t))]
 
-def toSOp : Sexp → Option (List Impl.SOp ⊕ (Nat ⊕ (Nat × Nat × Ty × Val)))
-  | .list [.atom "child", r, k] => do pure (.inl [.child (← atomNat r) (← atomNat k)])
-  | .list [.atom "childs", r, k] => do pure (.inl [.child (← atomNat r) (← atomNat k)])
-  | .list [.atom "childi", r, k] => do pure (.inl [.child (← atomNat r) (← atomNat k)])
-  | .list [.atom "mut", r, .list [.atom "sets", i, .list (.atom "s" :: vs)]] => do
-    -- slice assignment = the element assignments in order
+/-- store commands of the protocol -/
+inductive SCmd where
+  | steps (l : List Impl.SOp) (keepPrefix : Bool)  -- model steps in order; `keepPrefix`: a failure keeps the earlier ones
+  | snap (r : Nat)
+  | typed (r i : Nat) (ft : Ty) (v : Val)          -- assignment of a typed argument
+  | refused (r : Nat)                              -- an argument the API must refuse (negative selector)
+
+def toSOp : Sexp → Option SCmd
+  | .list [.atom "child", r, k] => do pure (.steps [.child (← atomNat r) (← atomNat k)] false)
+  | .list [.atom "childs", r, k] => do pure (.steps [.child (← atomNat r) (← atomNat k)] false)
+  | .list [.atom "childi", r, k] => do pure (.steps [.child (← atomNat r) (← atomNat k)] false)
+  | .list [.atom tag, r, .list [.atom "sets", i, .list (.atom "s" :: vs)]] => do
+    -- slice assignment = the element assignments in order; a failing one keeps the earlier writes
+    if tag != "mut" && tag != "bad" then none
     let r ← atomNat r
     let i ← atomNat i
     let vs ← vs.mapM toVal
-    pure (.inl ((List.range vs.length).zip vs |>.map fun (j, v) => .mutate r (.set (i + j) v)))
-  | .list [.atom "mut", r, op] => do pure (.inl [.mutate (← atomNat r) (← toOp op)])
+    pure (.steps ((List.range vs.length).zip vs |>.map fun (j, v) => .mutate r (.set (i + j) v)) true)
+  | .list [.atom "mut", r, op] => do pure (.steps [.mutate (← atomNat r) (← toOp op)] false)
   | .list [.atom "bad", r, .list [.atom "setf", i, ft, v]] => do
-    pure (.inr (.inr (← atomNat r, ← atomNat i, ← toTy ft, ← toVal v)))
-  | .list [.atom "bad", r, op] => do pure (.inl [.mutate (← atomNat r) (← toOp op)])
+    pure (.typed (← atomNat r) (← atomNat i) (← toTy ft) (← toVal v))
+  | .list [.atom "bad", r, op] => do
+    match ← toHOp op with
+    | .refused => pure (.refused (← atomNat r))
+    | .op o => pure (.steps [.mutate (← atomNat r) o] false)
+    | _ => none
   | .list [.atom "assign", r, i, _, v] => do
     -- a held view used as the value of an assignment: the value is copied, the view stays where it was
-    pure (.inl [.mutate (← atomNat r) (.set (← atomNat i) (← toVal v))])
-  | .list [.atom "copy", r] => do pure (.inl [.copy (← atomNat r)])
-  | .list [.atom "snap", r] => do pure (.inr (.inl (← atomNat r)))
+    pure (.steps [.mutate (← atomNat r) (.set (← atomNat i) (← toVal v))] false)
+  | .list [.atom "copy", r] => do pure (.steps [.copy (← atomNat r)] false)
+  | .list [.atom "snap", r] => do pure (.snap (← atomNat r))
   | _ => none
 
 /-- store histories: after every op the root and encoding of every held view and of every snapshot -/
-def runStore (t : Ty) (v : Val) (ops : List (List Impl.SOp ⊕ (Nat ⊕ (Nat × Nat × Ty × Val)))) : String :=
+def runStore (t : Ty) (v : Val) (ops : List SCmd) (lazy : Bool := false) : String :=
   match Impl.construct H t v with
   | none => "i.ctor=err"
   | some n0 =>
     let viewStr (o : Impl.VObj) : String :=
       hexOf (o.backing.root H) ++ ":" ++ hexO ((Impl.serTree H o.ty o.backing).map (·.1))
-    let rec go (k : Nat) (s : Impl.Store) (snaps : List (Ty × Node)) (ops : List (List Impl.SOp ⊕ (Nat ⊕ (Nat × Nat × Ty × Val))))
+    let rec go (k : Nat) (s : Impl.Store) (snaps : List (Ty × Node)) (ops : List SCmd)
         (acc : List String) : List String :=
       match ops with
-      | [] => acc.reverse
+      | [] =>
+        if lazy then
+          -- nothing was observed (nor hashed) on the way: everything is observed once, at the end
+          (acc.reverse ++ [
+            kv "end.views" (String.intercalate "," (s.map viewStr)),
+            kv "end.snaps" (String.intercalate "," (snaps.map fun (q : Ty × Node) =>
+              hexOf (q.2.root H) ++ ":" ++ hexO ((Impl.serTree H q.1 q.2).map (·.1))))])
+        else acc.reverse
       | op :: rest =>
         let bound : String := match op with
-          | .inl [.mutate r o] =>
+          | .steps [.mutate r o] _ =>
             -- path from the chain root down to the written node: the tree depth of every enclosing view
             let rec up (fuel : Nat) (q : Nat) (acc : Nat) : Nat :=
               match fuel with
@@ -458,11 +477,12 @@ def runStore (t : Ty) (v : Val) (ops : List (List Impl.SOp ⊕ (Nat ⊕ (Nat × 
           | _ => "-"
         let (s', snaps', status) : Impl.Store × List (Ty × Node) × String :=
           match op with
-          | .inr (.inl r) =>
+          | .snap r =>
             match s[r]? with
             | some o => (s, snaps ++ [(o.ty, o.backing)], "ok")
             | none => (s, snaps, "err")
-          | .inr (.inr (r, i, ft, x)) =>
+          | .refused _ => (s, snaps, "err")
+          | .typed r i ft x =>
             -- assignment of a typed argument
             match s[r]? with
             | some o =>
@@ -472,12 +492,20 @@ def runStore (t : Ty) (v : Val) (ops : List (List Impl.SOp ⊕ (Nat ⊕ (Nat × 
                 | none => (s, snaps, "err")
               else (s, snaps, "err")
             | none => (s, snaps, "err")
-          | .inl sops =>
+          | .steps sops keepPrefix =>
+            if keepPrefix then
+              let (s2, ok) := sops.foldl (fun (acc : Impl.Store × Bool) sop =>
+                if !acc.2 then acc else
+                match Impl.step H acc.1 sop with
+                | some s3 => (s3, true)
+                | none => (acc.1, false)) (s, true)
+              (s2, snaps, if ok then "ok" else "err")
+            else
             match sops.foldlM (fun st sop => Impl.step H st sop) s with
             | some s2 => (s2, snaps, "ok")
             | none => (s, snaps, "err")
         let p := toString k
-        let out := [
+        let out := if lazy then [kv (p ++ ".i") status] else [
           kv (p ++ ".i") status,
           kv (p ++ ".bound") bound,
           kv (p ++ ".views") (String.intercalate "," (s'.map viewStr)),
@@ -625,6 +653,7 @@ def runCase (xs : List Sexp) : Option String :=
   | .atom "hist" :: t :: v :: ops => do pure (runHist (← toTy t) (← toVal v) (← ops.mapM toHOp))
   | .atom "histf" :: t :: v :: ops => do pure (runHist (← toTy t) (← toVal v) (← ops.mapM toHOp))
   | .atom "store" :: t :: v :: ops => do pure (runStore (← toTy t) (← toVal v) (← ops.mapM toSOp))
+  | .atom "storel" :: t :: v :: ops => do pure (runStore (← toTy t) (← toVal v) (← ops.mapM toSOp) true)
   | .atom "partial" :: t :: v :: .list (.atom "pos" :: gs) :: ops => do
     pure (runPartial (← toTy t) (← toVal v) (← gs.mapM atomNat) (← ops.mapM toPOp))
   | .atom "virt" :: t :: v :: ops => do pure (runVirt (← toTy t) (← toVal v) (← ops.mapM toPOp))
